@@ -90,17 +90,18 @@ def generate(tier, rng):
     for _ in range(n):
         g, vals = _float_dtg(rng)
         fmt, blanks = rng.choice(FORMATS), rng.random() < 0.5
+        empty = rng.random() < 0.5
         if rng.random() < 0.3 and fmt != "json":
-            # a tier may span less than its textgrid (point tiers always; interval tiers when no blanks are filled in,
-            # since blank filling extends an interval tier to the textgrid's span by design)
+            # a tier may span less than its textgrid (point tiers always; interval tiers when no blanks are filled in
+            # or the filled-in blanks are dropped again on reading: blank filling pads the entries, not the tier's span)
             for t in g["tiers"]:
-                if (not t["isint"] or not blanks) and rng.random() < 0.7:
+                if (not t["isint"] or not blanks or not empty) and rng.random() < 0.7:
                     lo = t["entries"][0][0] if t["entries"] else g["xmax"]
                     hi = t["entries"][-1][-2] if t["entries"] else g["xmin"]
                     t["xmin"] = rng.randint(g["xmin"], min(lo, g["xmax"]))
                     t["xmax"] = rng.randint(max(hi, t["xmin"]), g["xmax"])
         cases.append({"op": "rt", "g": g, "vals": vals, "fmt": fmt, "blanks": blanks, "defthr": rng.random() < 0.5,
-                      "empty": rng.random() < 0.5, "scale": ["rank", 0]})
+                      "empty": empty, "scale": ["rank", 0]})
     return cases
 
 
@@ -194,12 +195,22 @@ def run(case):
                 if not (_near(a["tgspan"][0], b["tgspan"][0]) and _near(a["tgspan"][1], b["tgspan"][1])):
                     problems.append("textgrid span changed")
             # fixed point: re-saving the reopened textgrid reproduces the text (blank intervals are kept iff read)
-            tg3 = tgmod.openTextgrid(fn, True)
-            tg3.save(fn2, fmt, blanks, minimumIntervalLength=None)
-            with open(fn2, "r", encoding="utf-8", newline="") as fh:
-                text2 = fh.read()
-            if text2 != text1:
-                problems.append("re-saved text differs from the first file")
+            g = case["g"]
+            narrow_padded = blanks and any(t["isint"] and (t["xmin"], t["xmax"]) != (g["xmin"], g["xmax"]) for t in g["tiers"])
+            user_blanks = any(any(e[-1].strip() == "" for e in t["entries"]) for t in g["tiers"])
+            if not narrow_padded:
+                tg3 = tgmod.openTextgrid(fn, True)
+            elif not user_blanks:
+                # the padding lies outside the tier's own span: read without it, it is filled in again on saving
+                tg3 = tgmod.openTextgrid(fn, False)
+            else:
+                tg3 = None
+            if tg3 is not None:
+                tg3.save(fn2, fmt, blanks, minimumIntervalLength=None)
+                with open(fn2, "r", encoding="utf-8", newline="") as fh:
+                    text2 = fh.read()
+                if text2 != text1:
+                    problems.append("re-saved text differs from the first file")
         except Exception as e:  # noqa
             problems.append("reopening raised %s: %s" % (type(e).__name__, str(e)[:120]))
         out["problems"] = problems
